@@ -48,6 +48,8 @@ type Config struct {
 	MaxSteps     int // instructions per path
 	MaxDecisions int // decisions per path (unwinding bound on symbolic loops)
 	MaxPaths     int
+	// TimeBudget: wall-clock limit for one entry (0 = none); exceeding it makes the entry inconclusive
+	TimeBudget time.Duration
 	MaxPreempt   int
 	Trace        bool
 	Debug        bool
@@ -149,6 +151,7 @@ type Result struct {
 	SampleObligs  []string
 	Wall          time.Duration
 	PathLimitHit  bool
+	TimeLimitHit  bool
 }
 
 // Explorer runs one entry function over all paths.
@@ -165,6 +168,7 @@ type Explorer struct {
 	res     *Result
 	funcs   map[string]bool
 	skipGo  map[string]bool
+	t0      time.Time
 	stubsUsed map[string]bool
 	foreignGlobals map[string]bool
 	elided  map[string]bool
@@ -186,6 +190,7 @@ func NewExplorer(prog *ssa.Program, entry *ssa.Function, cfg *Config) *Explorer 
 
 func (x *Explorer) Run() *Result {
 	t0 := time.Now()
+	x.t0 = t0
 	x.work = [][]Decision{nil}
 	nw := x.cfg.Workers
 	if nw <= 0 {
@@ -260,6 +265,14 @@ func (x *Explorer) worker() {
 		x.work = x.work[:len(x.work)-1]
 		x.active++
 		x.npaths++
+		if x.cfg.TimeBudget > 0 && time.Since(x.t0) > x.cfg.TimeBudget {
+			x.res.TimeLimitHit = true
+			x.stop = true
+			x.active--
+			x.mu.Unlock()
+			x.cond.Broadcast()
+			return
+		}
 		if x.cfg.MaxPaths > 0 && x.npaths > x.cfg.MaxPaths {
 			x.res.PathLimitHit = true
 			x.stop = true
@@ -850,10 +863,52 @@ func (in *interp) dischargePending() {
 			in.x.res.Violations = append(in.x.res.Violations, v)
 			in.x.mu.Unlock()
 		default:
-			in.asserts = append(in.asserts, assertRec{p.label, "unknown"})
+			// the solver gave up within its per-query limit (seen on busy machines): ask again in a fresh
+			// process with six times the limit, then with the other kind of back end, before giving up
+			// Only "unsat" is taken from the second opinion (it is implied by any subset of the path condition);
+			// anything else stays "unknown" and the check is inconclusive as before.
+			if rr, _ := in.recheckFresh(neg); rr == smt.Unsat {
+				in.asserts = append(in.asserts, assertRec{p.label, "discharged"})
+			} else {
+				in.asserts = append(in.asserts, assertRec{p.label, "unknown"})
+			}
 		}
 		in.solver.Pop()
 	}
+}
+
+// recheckFresh decides pc && t in a new solver process with a larger time limit (same back end first, then
+// a bit-vector / integer-encoding alternative).
+func (in *interp) recheckFresh(t *smt.Term) (smt.Result, map[string]uint64) {
+	backends := []string{in.x.cfg.Backend, "z3"}
+	if in.x.cfg.Backend == "z3" || in.x.cfg.Backend == "z3new" {
+		backends[1] = "cvc5int"
+	}
+	for _, b := range backends {
+		s, err := smt.NewSolver(b, in.x.cfg.TimeoutMs*6)
+		if err != nil {
+			continue
+		}
+		for _, c := range in.pc {
+			s.Define(c)
+			s.Assert(c)
+		}
+		s.Define(t)
+		s.Assert(t)
+		r := s.Check()
+		var model map[string]uint64
+		if r == smt.Sat {
+			model = s.Model(in.ctx.Vars)
+		}
+		in.x.mu.Lock()
+		in.x.res.Queries++
+		in.x.mu.Unlock()
+		s.Close()
+		if r == smt.Sat || r == smt.Unsat {
+			return r, model
+		}
+	}
+	return smt.Unknown, nil
 }
 
 func (in *interp) checkWithModel(t *smt.Term, label string) smt.Result {
